@@ -280,7 +280,8 @@ func GenC02Exhaustive(seed uint64, tier string) *Plan {
 	return g.plan
 }
 
-var diskErrnos = []string{"EACCES", "EIO", "ENOSPC", "EROFS", "EMFILE", "ENAMETOOLONG", "EBUSY", "EXDEV", "ENOTEMPTY", "EDQUOT", "EPERM", "EINTR"}
+// (ENOENT/ENOTDIR/EEXIST/EISDIR: what a call meets when another process or request removed, replaced or created the thing in between)
+var diskErrnos = []string{"EACCES", "EIO", "ENOSPC", "EROFS", "EMFILE", "ENAMETOOLONG", "EBUSY", "EXDEV", "ENOTEMPTY", "EDQUOT", "EPERM", "EINTR", "ENOENT", "ENOENT", "ENOTDIR", "EEXIST", "EISDIR"}
 
 func (g *gen) diskFault(maxOrd int) Fault {
 	if g.r.Chance(0.15) {
